@@ -353,8 +353,11 @@ fn check_seq(dir: &Path, seqs: &[Vec<Kind>], quiet: bool, tag: &str, rep: &mut R
     let stderr = String::from_utf8_lossy(&out.stderr).to_string();
     // no abnormal termination
     let has_nonascii_hash = seqs.iter().flatten().any(|k| *k == Kind::NonAsciiHash);
+    // abnormal = killed by a signal, or a Rust panic (exit 101 / "panicked at"); which non-zero
+    // status a failing run uses is not part of the property
+    let panicked = out.code == Some(101) || stderr.contains("panicked at");
     match out.code {
-        Some(0) | Some(1) => {}
+        Some(_) if !panicked => {}
         other => {
             let key = if has_nonascii_hash { "parse_check_line:hashfield-nonascii-tail" } else { "check:abnormal-termination" };
             viol(rep, key, format!("b3sum --check {} terminates abnormally (exit {:?}): {}", detail, other, stderr.lines().last().unwrap_or("")), "check", detail);
@@ -478,7 +481,7 @@ fn multi_file(dir: &Path, data: &[u8], rep: &mut Report) {
         let size: usize = n[1..].parse().unwrap();
         want.push_str(&format!("{}  {}\n", refmodel::hex(&b3spec::hash32(&b3spec::Mode::hash(), &data[..size])), n));
     }
-    if out.code != Some(1) || String::from_utf8_lossy(&out.stdout) != want {
+    if out.code == Some(0) || out.code.is_none() || out.code == Some(101) || String::from_utf8_lossy(&out.stdout) != want {
         viol(rep, "hash:multi-file", format!("b3sum {:?}: exit {:?}, stdout {:?}", names, out.code, String::from_utf8_lossy(&out.stdout)), "multi", json!({"names": names}));
     }
     // --raw allows a single input only
@@ -565,6 +568,73 @@ fn bursty_inputs(dir: &Path, data: &[u8], rep: &mut Report) {
     }
 }
 
+/// Files that cannot be mapped (b3sum maps by default and must fall back to reading from the start)
+/// and files that report size 0 but have content.
+fn special_files(dir: &Path, rep: &mut Report) {
+    for path in ["/sys/kernel/btf/vmlinux", "/proc/version", "/proc/self/status"] {
+        // /proc/self/* differs between processes: only stable files are compared
+        if path.starts_with("/proc/self") {
+            continue;
+        }
+        let content = match std::fs::read(path) {
+            Ok(c) if !content_is_empty(&c) => c,
+            _ => continue,
+        };
+        for (what, mut argv) in [("default (mmap)", vec![]), ("--no-mmap", vec![os("--no-mmap")]), ("--length 40 --seek 7", vec![os("--length"), os("40"), os("--seek"), os("7")])] {
+            argv.push(os(path));
+            let out = run_b3sum(dir, &argv, b"");
+            rep.inc("evaluations");
+            rep.inc("distinct_nontrivial");
+            rep.inc("process_runs");
+            let (seek, len) = if what.contains("--seek") { (7u64, 40usize) } else { (0, 32) };
+            let want = format!("{}  {}\n", refmodel::hex(&b3spec::xof(&b3spec::Mode::hash(), &content, seek, len)), path);
+            if out.code != Some(0) || out.stdout != want.as_bytes() {
+                viol(rep, "hash:special-file", format!("b3sum {} on {} ({} bytes): exit {:?}, stdout {:?}, expected {:?}", what, path, content.len(), out.code, String::from_utf8_lossy(&out.stdout), want), "special", json!({"path": path, "args": what}));
+            }
+        }
+    }
+}
+
+fn content_is_empty(c: &[u8]) -> bool {
+    c.is_empty()
+}
+
+/// Many failing entries in one run: the exit status must stay non-zero whatever the count is
+/// (255, 256, 257, 512 - a status derived from the count would wrap), in one checkfile and spread
+/// over two; and the same for 256 missing inputs in hashing mode.
+fn many_failures(dir: &Path, rep: &mut Report) {
+    let stale = file_hash(b"not the content");
+    std::fs::write(dir.join("manyf"), b"content").unwrap();
+    let line = format!("{}  manyf\n", stale);
+    for (what, counts) in [("one checkfile", vec![255usize]), ("one checkfile", vec![256]), ("one checkfile", vec![257]), ("one checkfile", vec![512]), ("two checkfiles", vec![128, 128]), ("two checkfiles", vec![255, 1])] {
+        let mut args = vec![os("--check"), os("--quiet")];
+        for (i, c) in counts.iter().enumerate() {
+            let name = format!("many-{}.b3", i);
+            std::fs::write(dir.join(&name), line.repeat(*c)).unwrap();
+            args.push(os(&name));
+        }
+        let out = run_b3sum(dir, &args, b"");
+        rep.inc("evaluations");
+        rep.inc("distinct_nontrivial");
+        rep.inc("process_runs");
+        let total: usize = counts.iter().sum();
+        let failed_lines = String::from_utf8_lossy(&out.stdout).lines().filter(|l| l.ends_with("FAILED")).count();
+        if out.code == Some(0) || out.code.is_none() || out.code == Some(101) || failed_lines != total {
+            viol(rep, "check:exit-status-lies", format!("b3sum --check with {} failing entries in {} ({:?}): exit {:?}, {} FAILED lines", total, what, counts, out.code, failed_lines), "many-failures", json!({"counts": counts}));
+        }
+    }
+    let mut args: Vec<OsString> = vec![];
+    for i in 0..256 {
+        args.push(os(&format!("no-such-file-{}", i)));
+    }
+    let out = run_b3sum(dir, &args, b"");
+    rep.inc("evaluations");
+    rep.inc("process_runs");
+    if out.code == Some(0) || out.code.is_none() || out.code == Some(101) {
+        viol(rep, "hash:exit-status-lies", format!("b3sum on 256 missing inputs: exit {:?}", out.code), "many-failures", json!({"missing_inputs": 256}));
+    }
+}
+
 pub fn run(args: &Args, rep: &mut Report) {
     let t = args.thorough();
     let dir = scratch("c12");
@@ -586,6 +656,8 @@ pub fn run(args: &Args, rep: &mut Report) {
     key_cases(&dir, rep);
     multi_file(&dir, &data, rep);
     bursty_inputs(&dir, &data, rep);
+    many_failures(&dir, rep);
+    special_files(&dir, rep);
     // (2) --check: sequences of line kinds
     let mut work: Vec<(Vec<Vec<Kind>>, bool)> = vec![];
     for len in 1..=(if t { 3 } else { 2 }) {
@@ -612,7 +684,7 @@ pub fn run(args: &Args, rep: &mut Report) {
     });
     rep.merge(r);
     let _ = std::fs::remove_dir_all(&dir);
-    rep.rule = format!("(1) b3sum run on files: {} of size x mode (plain, --keyed with key on stdin, --derive-key) x --length x --seek (incl. 64*2^32 and 2^64-1-length) x --no-mmap x --num-threads x output form (names, --no-names, --raw, --tag), plus stdin input, stdin and a FIFO delivering 150000 bytes in bursts cut at seven boundary sets (each burst written only after the previous one was consumed, so b3sum's reads come back short exactly there), key lengths 0..64, several files with one missing; stdout must equal the spec stream S[seek..seek+length] in the documented form; (2) --check on checkfiles enumerated as sequences of 15 line kinds (5 good forms, stale, missing, 8 malformed): all sequences of length <= {} (and {} over 7 kinds), with and without --quiet, and all pairs of checkfiles: exit 0 iff all good, one OK/FAILED line per entry in order, one diagnostic per malformed line, correct warning count, never abnormal termination; non-trivial = distinct invocations",
+    rep.rule = format!("(1) b3sum run on files: {} of size x mode (plain, --keyed with key on stdin, --derive-key) x --length x --seek (incl. 64*2^32 and 2^64-1-length) x --no-mmap x --num-threads x output form (names, --no-names, --raw, --tag), plus stdin input, stdin and a FIFO delivering 150000 bytes in bursts cut at seven boundary sets (each burst written only after the previous one was consumed, so b3sum's reads come back short exactly there), an unmappable sysfs file and a size-0 procfs file (default, --no-mmap, --length/--seek), key lengths 0..64, several files with one missing; stdout must equal the spec stream S[seek..seek+length] in the documented form; (2) --check on checkfiles enumerated as sequences of 15 line kinds (5 good forms, stale, missing, 8 malformed): all sequences of length <= {} (and {} over 7 kinds), with and without --quiet, and all pairs of checkfiles: exit 0 iff all good, one OK/FAILED line per entry in order, one diagnostic per malformed line, correct warning count, never abnormal termination (a signal or a panic; which non-zero status is used is not judged); 255 / 256 / 257 / 512 failing entries in one run and 256 missing inputs must still exit non-zero; non-trivial = distinct invocations",
         if t { "the full product" } else { "all pairs of axis values (others at base)" }, if t { 3 } else { 2 }, if t { "length 4" } else { "length 3" });
     rep.sample(json!({"kind": "hash", "argv": ["--keyed", "--length", "131", "--seek", "274877906943", "--no-mmap", "--tag", "f16385"], "stdin": "32-byte key"}));
     rep.sample(json!({"kind": "check", "checkfile": ["GoodEscaped", "NonAsciiHash", "GoodTagSpaces"], "expect": "exit 1, two OK lines, one diagnostic, WARNING: 1"}));
